@@ -8,28 +8,49 @@ From LSP Require Import Base Sem SemThy Denote RoundTrip PtyEq.
 
 (* an array's shape records the shape of its FIRST element (None = empty): some hooks decide the element class of a homogeneous
    array by probing object_[0] *)
-Inductive shape := ShNull | ShPrimNS | ShStr | ShArr (first : option shape) | ShObj (ks : list string).
+(* what is known about the value of a member: its kind, for strings possibly the text; KUnk = nothing *)
+Inductive kinfo := KNull | KPrim | KStr (s : option string) | KArr | KObj | KUnk.
+Definition kinfo_of (j : json) : kinfo :=
+  match j with JNull => KNull | JBool _ | JInt _ | JFlt _ _ => KPrim | JStr s => KStr (Some s) | JArr _ => KArr | JObj _ => KObj end.
+Inductive shape := ShNull | ShPrimNS | ShStr | ShArr (first : option shape) | ShObj (kvs : list (string * kinfo)).
 Fixpoint shape_of (j : json) : shape :=
   match j with
   | JNull => ShNull | JBool _ | JInt _ | JFlt _ _ => ShPrimNS | JStr _ => ShStr
   | JArr l => ShArr (match l with [] => None | x :: _ => Some (shape_of x) end)
-  | JObj m => ShObj (keys m) end.
+  | JObj m => ShObj (map (fun kv => (fst kv, kinfo_of (snd kv))) m) end.
 Definition is_first (e : hexpr) : bool := match e with HIdx HObj 0 => true | _ => false end.
+Definition key_of (e : hexpr) : option string := match e with HKey HObj k => Some k | _ => None end.
+Definition kget (sh : shape) (k : string) : option kinfo := match sh with ShObj kvs => assoc k kvs | _ => None end.
+(* a test on the kind of the member e = object_[k] *)
+Definition ktest (sh : shape) (e : hexpr) (yes : kinfo -> bool) : option bool :=
+  match key_of e with
+  | Some k => match kget sh k with Some KUnk => None | Some a => Some (yes a) | None => None end
+  | None => None end.
 
 Definition is_hobj (e : hexpr) : bool := match e with HObj => true | _ => false end.
 Fixpoint seval (c : hcond) (sh : shape) : option bool :=
   match c with
-  | CIsNone e => if is_hobj e then Some (match sh with ShNull => true | _ => false end) else None
-  | CIsPrim e => if is_hobj e then Some (match sh with ShPrimNS | ShStr => true | _ => false end) else None
-  | CIsStr e => if is_hobj e then Some (match sh with ShStr => true | _ => false end) else None
-  | CIsList e => if is_hobj e then Some (match sh with ShArr _ => true | _ => false end) else None
-  | CHasKey k e => if is_hobj e then match sh with ShObj ks => Some (mem k ks) | _ => None end
-                   else if is_first e then match sh with ShArr (Some (ShObj ks)) => Some (mem k ks) | _ => None end else None
+  | CIsNone e => if is_hobj e then Some (match sh with ShNull => true | _ => false end)
+                 else ktest sh e (fun a => match a with KNull => true | _ => false end)
+  | CIsPrim e => if is_hobj e then Some (match sh with ShPrimNS | ShStr => true | _ => false end)
+                 else ktest sh e (fun a => match a with KPrim | KStr _ => true | _ => false end)
+  | CIsStr e => if is_hobj e then Some (match sh with ShStr => true | _ => false end)
+                else ktest sh e (fun a => match a with KStr _ => true | _ => false end)
+  | CIsList e => if is_hobj e then Some (match sh with ShArr _ => true | _ => false end)
+                 else ktest sh e (fun a => match a with KArr => true | _ => false end)
+  | CHasKey k e => if is_hobj e then match sh with ShObj kvs => Some (mem k (map fst kvs)) | _ => None end
+                   else if is_first e then match sh with ShArr (Some (ShObj kvs)) => Some (mem k (map fst kvs)) | _ => None end else None
+  | CEqStr e s => match key_of e with
+                  | Some k => match kget sh k with
+                              | Some (KStr (Some v)) => Some (String.eqb s v)
+                              | Some (KStr None) | Some KUnk | None => None
+                              | Some _ => Some false end
+                  | None => None end
   | CLenEq0 e => if is_hobj e then match sh with ShArr None => Some true | ShArr (Some _) => Some false | _ => None end else None
   | CNot c => option_map negb (seval c sh)
   | COr a b => match seval a sh with Some true => Some true | Some false => seval b sh | None => None end
   | CAnd a b => match seval a sh with Some true => seval b sh | Some false => Some false | None => None end
-  | _ => None end.
+  end.
 Fixpoint sleaf (h : hook) (sh : shape) : option hret :=
   match h with
   | TIf c a b => match seval c sh with Some true => sleaf a sh | Some false => sleaf b sh | None => None end
@@ -40,6 +61,26 @@ Fixpoint cprobes (c : hcond) : list string :=
   match c with CHasKey k _ => [k] | CNot c => cprobes c | COr a b | CAnd a b => cprobes a ++ cprobes b | _ => [] end.
 Fixpoint hprobes (h : hook) : list string :=
   match h with TIf c a b => cprobes c ++ hprobes a ++ hprobes b | _ => [] end.
+(* what a member's declared type says about the kind of its value (nl: may it be an explicit null?) *)
+Definition kind1 (t : pty) : kinfo :=
+  match t with
+  | PyNone => KNull | PyInt | PyBool | PyFloat => KPrim | PyStr => KStr None
+  | PyLit [s] => KStr (Some s) | PyLit _ => KStr None
+  | PySeq _ | PyTuple _ => KArr | PyCls _ | PyDict _ _ => KObj | _ => KUnk end.
+Definition kinfo_eqb (a b : kinfo) : bool :=
+  match a, b with
+  | KNull, KNull | KPrim, KPrim | KArr, KArr | KObj, KObj | KUnk, KUnk | KStr None, KStr None => true
+  | KStr (Some s), KStr (Some s') => String.eqb s s' | _, _ => false end.
+Definition kind_of_ty (nl : bool) (t : pty) : kinfo :=
+  match t with
+  | PyUnion ms => match (if nl then ms else filter (fun x => negb (is_none x)) ms) with
+                  | x :: r => if forallb (fun y => kinfo_eqb (kind1 y) (kind1 x)) r then kind1 x else KUnk
+                  | [] => KUnk end
+  | _ => if nl then KUnk else kind1 t end.
+(* a is at most as informative as b *)
+Definition kle (a b : kinfo) : bool :=
+  match a, b with
+  | KUnk, _ => true | KStr None, KStr _ => true | _, _ => kinfo_eqb a b end.
 
 (* no condition looks inside the first element *)
 Fixpoint cidx_free (c : hcond) : bool :=
@@ -77,6 +118,10 @@ Variable GU : list pty.
 Definition is_self (r : hret) : bool := match r with RSelf HObj => true | _ => false end.
 Definition is_self_or_str (r : hret) : bool := match r with RSelf HObj | RStr HObj => true | _ => false end.
 Definition leaf_is (o : option hret) (p : hret -> bool) : bool := match o with Some r => p r | None => false end.
+Definition self_prim_ty (t : pty) : bool := match t with PyStr | PyInt | PyBool => true | _ => false end.
+Definition is_idx (e : hexpr) (i : nat) : bool := match e with HIdx HObj n => Nat.eqb n i | _ => false end.
+Definition is_pair_leaf (r : hret) : bool :=
+  match r with RTuple [RIntOf a; RIntOf b] => is_idx a 0 && is_idx b 1 | _ => false end.
 
 (* what may follow from knowing that the keys in [pres] are present and the keys in [abs] are absent, for an object valid at class fs:
    it is valid at class fs' as well *)
@@ -88,13 +133,24 @@ Definition consistent (fs : list fld) (P S : list string) : bool :=
   forallb (fun k => implb (existsb (fun f => String.eqb (fwire f) k && must_present Sg f) fs) (mem k S)
                     && implb (mem k S) (mem k (map fwire fs))) P.
 
+(* the representative shape of an object of class c whose probed present keys are S: each key with what its declared type says *)
+Definition finfo (c : string) (fs : list fld) (k : string) : kinfo :=
+  match find (fun f => String.eqb (fwire f) k) fs with
+  | Some f => match fval f, fvalopt f with
+              | VIn [s], false => KStr (Some s)          (* a literal discriminator: the validator admits exactly this string *)
+              | _, _ => kind_of_ty (NL c k) (ftype f) end
+  | None => KUnk end.
+Definition rep_obj (c : string) (fs : list fld) (S : list string) : list (string * kinfo) := map (fun k => (k, finfo c fs k)) S.
+Definition rep_unk (S : list string) : list (string * kinfo) := map (fun k => (k, KUnk)) S.
+
 Definition cls_member_ok (ms : list pty) (h : hook) (c : string) : bool :=
   match lookup_cls Sg c with
   | None => false
   | Some fs =>
     let P := hprobes h in
+    nodupb (map fwire fs) &&
     forallb (fun S => negb (consistent fs P S) ||
-       match sleaf h (ShObj S) with
+       match sleaf h (ShObj (rep_obj c fs S)) with
        | Some (RStruct HObj (PyCls c')) =>
            existsb (pty_eqb (PyCls c')) ms && mem c' GC &&
            match lookup_cls Sg c' with
@@ -113,11 +169,17 @@ Definition member_ok (ms : list pty) (h : hook) (t : pty) : bool :=
   | PyAny | PyOpaque _ => match h with TRet (RSelf HObj) => true | _ => false end
   | PySeq e =>
       (* the empty array *)
-      match sleaf h (ShArr None) with Some REmpty | Some (RMap HObj (RStruct HItem _)) => true | _ => false end &&
+      match sleaf h (ShArr None) with Some REmpty | Some (RMap HObj _) => true | _ => false end &&
       (* non-empty arrays: either no condition looks at the first element and the elements are structured at e itself, or e is
          a class and every key set its FIRST element can have leads to a class c' every element is valid for *)
       ((idx_free h && match sleaf h (ShArr (Some ShNull)) with
                       | Some (RMap HObj (RStruct HItem t')) => pty_eqb e t' && okty Sg GC GU e
+                      | Some (RMap HObj (RStr HItem)) => pty_eqb e PyStr          (* [str(item) for item in object_] on a list of strings *)
+                      | Some (RMap HObj (RIf (CIsPrim HItem) (RSelf HItem) (RStruct HItem (PyCls c')))) =>
+                          (* items that are primitives stay, the others are structured as class c': e = Union[c', str, ...] *)
+                          match e with
+                          | PyUnion ems => forallb (fun x => self_prim_ty x || pty_eqb x (PyCls c')) ems && mem c' GC
+                          | _ => false end
                       | _ => false end)
        || match e with
           | PyCls c =>
@@ -126,7 +188,7 @@ Definition member_ok (ms : list pty) (h : hook) (t : pty) : bool :=
               | Some fs =>
                   let P := hprobes h in
                   forallb (fun S => negb (consistent fs P S) ||
-                     match sleaf h (ShArr (Some (ShObj S))) with
+                     match sleaf h (ShArr (Some (ShObj (rep_unk S)))) with
                      | Some (RMap HObj (RStruct HItem (PyCls c'))) =>
                          existsb (pty_eqb (PySeq (PyCls c'))) ms && mem c' GC &&
                          match lookup_cls Sg c' with
@@ -136,6 +198,9 @@ Definition member_ok (ms : list pty) (h : hook) (t : pty) : bool :=
               end
           | _ => false end)
   | PyCls c => cls_member_ok ms h c
+  | PyTuple [PyInt; PyInt] =>
+      (* a pair of integers rebuilt component-wise: (int(object_[0]), int(object_[1])) *)
+      leaf_is (sleaf h (ShArr (Some ShPrimNS))) is_pair_leaf
   | _ => false end.
 
 Definition hook_ok (ms : list pty) (h : hook) : bool := forallb nonunion ms && forallb (member_ok ms h) ms.
@@ -186,18 +251,41 @@ Proof. destruct e; try discriminate. destruct e; try discriminate. destruct n; t
 Lemma is_nil_keys {A} (m : list (string * A)) : is_nil_b (keys m) = is_nil_b m.
 Proof. destruct m; reflexivity. Qed.
 
+Lemma assoc_map_snd {A B} (g : A -> B) k (m : list (string * A)) :
+  assoc k (map (fun kv => (fst kv, g (snd kv))) m) = option_map g (assoc k m).
+Proof. unfold assoc. induction m as [|[a b] m IH]; [reflexivity|]. cbn [map find fst snd]. destruct (String.eqb a k); [reflexivity | exact IH]. Qed.
+Lemma map_fst_map_snd {A B} (g : A -> B) (m : list (string * A)) : map fst (map (fun kv => (fst kv, g (snd kv))) m) = keys m.
+Proof. unfold keys. rewrite map_map. reflexivity. Qed.
+
+Lemma ktest_sound e j yes b : ktest (shape_of j) e yes = Some b ->
+  exists x, heval e j None = Ok x /\ yes (kinfo_of x) = b.
+Proof.
+  unfold ktest. destruct e as [| |e0 n|e0 k]; try discriminate. destruct e0; try discriminate. cbn [key_of].
+  destruct j as [| | | | | |m]; try discriminate. cbn [shape_of kget]. rewrite assoc_map_snd.
+  destruct (assoc k m) as [x|] eqn:A; [|discriminate]. cbn [option_map]. intros H. exists x. cbn [heval bind]. rewrite A. split; [reflexivity|].
+  destruct (kinfo_of x) eqn:K; try discriminate; inversion H; reflexivity.
+Qed.
+
 Lemma seval_sound c j : forall b, seval c (shape_of j) = Some b -> ceval c j None = Ok b.
 Proof.
   induction c as [e|e|e|e|k e|e s|e|c IH|a IHa b IHb|a IHa b IHb]; cbn [seval ceval]; intros r H; try discriminate.
-  - destruct (is_hobj e) eqn:E; [apply is_hobj_eq in E; subst e; cbn [heval bind] | discriminate]. inversion H. destruct j; try reflexivity.
-  - destruct (is_hobj e) eqn:E; [apply is_hobj_eq in E; subst e; cbn [heval bind] | discriminate]. inversion H. destruct j; try reflexivity.
-  - destruct (is_hobj e) eqn:E; [apply is_hobj_eq in E; subst e; cbn [heval bind] | discriminate]. inversion H. destruct j; try reflexivity.
-  - destruct (is_hobj e) eqn:E; [apply is_hobj_eq in E; subst e; cbn [heval bind] | discriminate]. inversion H. destruct j; try reflexivity.
+  - destruct (is_hobj e) eqn:E; [apply is_hobj_eq in E; subst e; cbn [heval bind]; inversion H; destruct j; reflexivity|].
+    destruct (ktest_sound _ _ _ _ H) as [x [Hx Y]]. rewrite Hx. cbn [bind]. rewrite <- Y. destruct x; reflexivity.
+  - destruct (is_hobj e) eqn:E; [apply is_hobj_eq in E; subst e; cbn [heval bind]; inversion H; destruct j; reflexivity|].
+    destruct (ktest_sound _ _ _ _ H) as [x [Hx Y]]. rewrite Hx. cbn [bind]. rewrite <- Y. destruct x; reflexivity.
+  - destruct (is_hobj e) eqn:E; [apply is_hobj_eq in E; subst e; cbn [heval bind]; inversion H; destruct j; reflexivity|].
+    destruct (ktest_sound _ _ _ _ H) as [x [Hx Y]]. rewrite Hx. cbn [bind]. rewrite <- Y. destruct x; reflexivity.
+  - destruct (is_hobj e) eqn:E; [apply is_hobj_eq in E; subst e; cbn [heval bind]; inversion H; destruct j; reflexivity|].
+    destruct (ktest_sound _ _ _ _ H) as [x [Hx Y]]. rewrite Hx. cbn [bind]. rewrite <- Y. destruct x; reflexivity.
   - destruct (is_hobj e) eqn:E.
-    + apply is_hobj_eq in E. subst e. cbn [heval bind]. destruct j; try discriminate. cbn in H. inversion H. reflexivity.
+    + apply is_hobj_eq in E. subst e. cbn [heval bind]. destruct j; try discriminate. cbn [shape_of] in H. inversion H. rewrite map_fst_map_snd. reflexivity.
     + destruct (is_first e) eqn:F; [|discriminate]. apply is_first_eq in F. subst e.
       destruct j as [| | | | |l|]; try discriminate. cbn [shape_of] in H. destruct l as [|x l]; [discriminate|].
-      destruct x as [| | | | | |m]; try discriminate. cbn [shape_of] in H. inversion H. reflexivity.
+      destruct x as [| | | | | |m]; try discriminate. cbn [shape_of] in H. inversion H. rewrite map_fst_map_snd. reflexivity.
+  - (* CEqStr *) destruct e as [| |e0 n|e0 k]; try discriminate. destruct e0; try discriminate. cbn [key_of] in H.
+    destruct j as [| | | | | |m]; try discriminate. cbn [shape_of kget] in H. rewrite assoc_map_snd in H.
+    destruct (assoc k m) as [x|] eqn:A; [|discriminate]. cbn [option_map] in H. cbn [heval bind]. rewrite A. cbn [bind].
+    destruct x; cbn [kinfo_of] in H; inversion H; reflexivity.
   - destruct (is_hobj e) eqn:E; [apply is_hobj_eq in E; subst e; cbn [heval bind] | discriminate].
     destruct j as [| | | | |l|]; try discriminate. cbn [shape_of] in H. destruct l; inversion H; reflexivity.
   - destruct (seval c (shape_of j)) as [x|]; [|discriminate]. cbn in H. inversion H. rewrite (IH x eq_refl). reflexivity.
@@ -215,28 +303,69 @@ Proof.
   destruct (seval c (shape_of j)) as [[|]|] eqn:E; [| |discriminate]; rewrite (seval_sound _ _ _ E); cbn; auto.
 Qed.
 
-(* the leaf depends on an object's key set only through the probed keys — for the value itself and for a first element *)
-Lemma seval_ext c ks ks' : (forall k, In k (cprobes c) -> mem k ks = mem k ks') ->
-  seval c (ShObj ks) = seval c (ShObj ks') /\ seval c (ShArr (Some (ShObj ks))) = seval c (ShArr (Some (ShObj ks'))).
+(* refinement: the leaf computed for a LESS informative object shape (same membership of the probed keys, member kinds at most as
+   precise) is the leaf of the real shape — for the value itself and for a first element *)
+Definition Refines (P : list string) (kvs kvs' : list (string * kinfo)) : Prop :=
+  (forall k, In k P -> mem k (map fst kvs) = mem k (map fst kvs')) /\
+  (forall k a, assoc k kvs = Some a -> exists b, assoc k kvs' = Some b /\ kle a b = true).
+
+Lemma ktest_mono kvs kvs' e yes r : (forall k a, assoc k kvs = Some a -> exists b, assoc k kvs' = Some b /\ kle a b = true) ->
+  (forall a b, kle a b = true -> a <> KUnk -> yes a = yes b) ->
+  ktest (ShObj kvs) e yes = Some r -> ktest (ShObj kvs') e yes = Some r.
 Proof.
-  induction c as [e|e|e|e|k e|e s|e|c IH|a IHa b IHb|a IHa b IHb]; cbn [seval cprobes]; intros H; try (split; reflexivity).
-  - destruct (is_hobj e); [rewrite (H k (or_introl eq_refl)); split; reflexivity|].
-    destruct (is_first e); [rewrite (H k (or_introl eq_refl)); split; reflexivity | split; reflexivity].
-  - destruct (IH H) as [E1 E2]. rewrite E1, E2. split; reflexivity.
-  - destruct (IHa (fun k I => H k (in_or_app _ _ _ (or_introl I)))) as [A1 A2]. destruct (IHb (fun k I => H k (in_or_app _ _ _ (or_intror I)))) as [B1 B2].
-    rewrite A1, A2, B1, B2. split; reflexivity.
-  - destruct (IHa (fun k I => H k (in_or_app _ _ _ (or_introl I)))) as [A1 A2]. destruct (IHb (fun k I => H k (in_or_app _ _ _ (or_intror I)))) as [B1 B2].
-    rewrite A1, A2, B1, B2. split; reflexivity.
+  intros R Y. unfold ktest. destruct (key_of e) as [k|]; [|discriminate]. cbn [kget].
+  destruct (assoc k kvs) as [a|] eqn:A; [|discriminate]. destruct (R k a A) as [b [B L]]. rewrite B.
+  intros H. assert (NU : a <> KUnk) by (intro E; subst a; discriminate).
+  assert (NB : b <> KUnk). { intro E. subst b. destruct a as [| |[s|]| | |]; cbn in L; try discriminate; contradiction. }
+  rewrite <- (Y a b L NU). destruct a; try (exfalso; apply NU; reflexivity); destruct b; try (exfalso; apply NB; reflexivity); exact H.
 Qed.
-Lemma sleaf_ext h ks ks' : (forall k, In k (hprobes h) -> mem k ks = mem k ks') ->
-  sleaf h (ShObj ks) = sleaf h (ShObj ks') /\ sleaf h (ShArr (Some (ShObj ks))) = sleaf h (ShArr (Some (ShObj ks'))).
+
+Lemma seval_mono c kvs kvs' : Refines (cprobes c) kvs kvs' ->
+  (forall r, seval c (ShObj kvs) = Some r -> seval c (ShObj kvs') = Some r) /\
+  (forall r, seval c (ShArr (Some (ShObj kvs))) = Some r -> seval c (ShArr (Some (ShObj kvs'))) = Some r).
 Proof.
-  induction h as [c a IHa b IHb|r0|]; cbn [sleaf hprobes]; intros H; try (split; reflexivity).
-  destruct (seval_ext c ks ks' (fun k I => H k (in_or_app _ _ _ (or_introl I)))) as [C1 C2].
-  destruct (IHa (fun k I => H k (in_or_app _ _ _ (or_intror (in_or_app _ _ _ (or_introl I)))))) as [A1 A2].
-  destruct (IHb (fun k I => H k (in_or_app _ _ _ (or_intror (in_or_app _ _ _ (or_intror I)))))) as [B1 B2].
-  rewrite C1, C2, A1, A2, B1, B2. split; reflexivity.
+  induction c as [e|e|e|e|k e|e s|e|c IH|a IHa b IHb|a IHa b IHb]; cbn [seval cprobes]; intros [RM RV].
+  - split; intros r; [|destruct (is_hobj e); [auto|]; unfold ktest; destruct (key_of e); auto].
+    destruct (is_hobj e); [auto|]. apply ktest_mono; [exact RV|]. intros x y L N. destruct x as [| |[?|]| | |], y as [| |[?|]| | |]; cbn in L; try discriminate; try reflexivity; contradiction.
+  - split; intros r; [|destruct (is_hobj e); [auto|]; unfold ktest; destruct (key_of e); auto].
+    destruct (is_hobj e); [auto|]. apply ktest_mono; [exact RV|]. intros x y L N. destruct x as [| |[?|]| | |], y as [| |[?|]| | |]; cbn in L; try discriminate; try reflexivity; contradiction.
+  - split; intros r; [|destruct (is_hobj e); [auto|]; unfold ktest; destruct (key_of e); auto].
+    destruct (is_hobj e); [auto|]. apply ktest_mono; [exact RV|]. intros x y L N. destruct x as [| |[?|]| | |], y as [| |[?|]| | |]; cbn in L; try discriminate; try reflexivity; contradiction.
+  - split; intros r; [|destruct (is_hobj e); [auto|]; unfold ktest; destruct (key_of e); auto].
+    destruct (is_hobj e); [auto|]. apply ktest_mono; [exact RV|]. intros x y L N. destruct x as [| |[?|]| | |], y as [| |[?|]| | |]; cbn in L; try discriminate; try reflexivity; contradiction.
+  - split; intros r.
+    + destruct (is_hobj e); [rewrite (RM k (or_introl eq_refl)); auto|]. destruct (is_first e); auto.
+    + destruct (is_hobj e); [auto|]. destruct (is_first e); [rewrite (RM k (or_introl eq_refl)); auto | auto].
+  - split; intros r; [|destruct (key_of e); auto].
+    destruct (key_of e) as [k|]; [|auto]. cbn [kget]. destruct (assoc k kvs) as [a|] eqn:A; [|discriminate].
+    destruct (RV k a A) as [b [B L]]. rewrite B. destruct a as [| |[v|]| | |], b as [| |[w|]| | |]; cbn in L; try discriminate; auto.
+    apply String.eqb_eq in L. subst w. auto.
+  - split; intros r; auto.
+  - destruct (IH (conj RM RV)) as [I1 I2]. split; intros r H.
+    + destruct (seval c (ShObj kvs)) as [x|] eqn:E; [|discriminate]. rewrite (I1 x eq_refl). exact H.
+    + destruct (seval c (ShArr (Some (ShObj kvs)))) as [x|] eqn:E; [|discriminate]. rewrite (I2 x eq_refl). exact H.
+  - destruct (IHa (conj (fun k I => RM k (in_or_app _ _ _ (or_introl I))) RV)) as [A1 A2].
+    destruct (IHb (conj (fun k I => RM k (in_or_app _ _ _ (or_intror I))) RV)) as [B1 B2]. split; intros r H.
+    + destruct (seval a (ShObj kvs)) as [[|]|] eqn:E; [| |discriminate]; rewrite (A1 _ eq_refl); auto.
+    + destruct (seval a (ShArr (Some (ShObj kvs)))) as [[|]|] eqn:E; [| |discriminate]; rewrite (A2 _ eq_refl); auto.
+  - destruct (IHa (conj (fun k I => RM k (in_or_app _ _ _ (or_introl I))) RV)) as [A1 A2].
+    destruct (IHb (conj (fun k I => RM k (in_or_app _ _ _ (or_intror I))) RV)) as [B1 B2]. split; intros r H.
+    + destruct (seval a (ShObj kvs)) as [[|]|] eqn:E; [| |discriminate]; rewrite (A1 _ eq_refl); auto.
+    + destruct (seval a (ShArr (Some (ShObj kvs)))) as [[|]|] eqn:E; [| |discriminate]; rewrite (A2 _ eq_refl); auto.
 Qed.
+Lemma sleaf_mono h kvs kvs' : Refines (hprobes h) kvs kvs' ->
+  (forall r, sleaf h (ShObj kvs) = Some r -> sleaf h (ShObj kvs') = Some r) /\
+  (forall r, sleaf h (ShArr (Some (ShObj kvs))) = Some r -> sleaf h (ShArr (Some (ShObj kvs'))) = Some r).
+Proof.
+  induction h as [c a IHa b IHb|r0|]; cbn [sleaf hprobes]; intros [RM RV]; try (split; intros r H; exact H).
+  destruct (seval_mono c kvs kvs' (conj (fun k I => RM k (in_or_app _ _ _ (or_introl I))) RV)) as [C1 C2].
+  destruct (IHa (conj (fun k I => RM k (in_or_app _ _ _ (or_intror (in_or_app _ _ _ (or_introl I))))) RV)) as [A1 A2].
+  destruct (IHb (conj (fun k I => RM k (in_or_app _ _ _ (or_intror (in_or_app _ _ _ (or_intror I))))) RV)) as [B1 B2].
+  split; intros r H.
+  - destruct (seval c (ShObj kvs)) as [[|]|] eqn:E; [| |discriminate]; rewrite (C1 _ eq_refl); auto.
+  - destruct (seval c (ShArr (Some (ShObj kvs)))) as [[|]|] eqn:E; [| |discriminate]; rewrite (C2 _ eq_refl); auto.
+Qed.
+
 (* without a probe of the first element the leaf does not depend on it *)
 Lemma seval_idx_free c a b : cidx_free c = true -> seval c (ShArr (Some a)) = seval c (ShArr (Some b)).
 Proof.
@@ -289,6 +418,32 @@ Qed.
 Lemma jvalidate_nonnull f f' v : v <> JNull -> fval f = fval f' -> jvalidate f v = jvalidate f' v.
 Proof. intros N E. unfold jvalidate. rewrite E. destruct v; try reflexivity. contradiction. Qed.
 
+Lemma is_idx_eq e i : is_idx e i = true -> e = HIdx HObj i.
+Proof. destruct e as [| |e n|]; try discriminate. destruct e; try discriminate. cbn. intros H. apply Nat.eqb_eq in H. congruence. Qed.
+Lemma is_pair_leaf_eq r : is_pair_leaf r = true -> r = RTuple [RIntOf (HIdx HObj 0); RIntOf (HIdx HObj 1)].
+Proof.
+  destruct r as [| | | | | | | |l]; try discriminate. destruct l as [|r1 [|r2 [|r3 l]]]; try discriminate;
+    destruct r1; try discriminate; destruct r2; try discriminate.
+  cbn. intros H. apply andb_true_iff in H. destruct H as [H1 H2]. rewrite (is_idx_eq _ _ H1), (is_idx_eq _ _ H2). reflexivity.
+Qed.
+Lemma seq_leaf_cases (o : option hret) (Q1 : pty -> bool) (q2 : bool) (Q3 : string -> bool) :
+  match o with
+  | Some (RMap HObj (RStruct HItem t')) => Q1 t'
+  | Some (RMap HObj (RStr HItem)) => q2
+  | Some (RMap HObj (RIf (CIsPrim HItem) (RSelf HItem) (RStruct HItem (PyCls c')))) => Q3 c'
+  | _ => false end = true ->
+  (exists t', o = Some (RMap HObj (RStruct HItem t')) /\ Q1 t' = true) \/
+  (o = Some (RMap HObj (RStr HItem)) /\ q2 = true) \/
+  (exists c', o = Some (RMap HObj (RIf (CIsPrim HItem) (RSelf HItem) (RStruct HItem (PyCls c')))) /\ Q3 c' = true).
+Proof.
+  destruct o as [r|]; [|discriminate]. destruct r as [| | | | | |e body| |]; try discriminate. destruct e; try discriminate.
+  destruct body as [| | |e t'|e| | |c a b|]; try discriminate.
+  - destruct e; try discriminate. eauto.
+  - destruct e; try discriminate. eauto.
+  - destruct c as [|e| | | | | | | |]; try discriminate. destruct e; try discriminate.
+    destruct a as [|e| | | | | | |]; try discriminate. destruct e; try discriminate.
+    destruct b as [| | |e t'| | | | |]; try discriminate. destruct e; try discriminate. destruct t'; try discriminate. eauto 6.
+Qed.
 Lemma leaf_map_inv (o : option hret) (Q : pty -> bool) :
   match o with Some (RMap HObj (RStruct HItem t')) => Q t' | _ => false end = true ->
   exists t', o = Some (RMap HObj (RStruct HItem t')) /\ Q t' = true.
@@ -296,6 +451,41 @@ Proof.
   destruct o as [r|]; [|discriminate]. destruct r; try discriminate. destruct e; try discriminate. destruct r; try discriminate.
   destruct e; try discriminate. eauto.
 Qed.
+
+Lemma kinfo_eqb_eq a b : kinfo_eqb a b = true -> a = b.
+Proof. destruct a as [| |[?|]| | |], b as [| |[?|]| | |]; cbn; try discriminate; try reflexivity. intros H. apply String.eqb_eq in H. congruence. Qed.
+Lemma kle_refl_of_eq a b : a = b -> kle a b = true.
+Proof. intros ->. destruct b as [| |[?|]| | |]; cbn; try reflexivity. apply String.eqb_refl. Qed.
+Lemma kind1_sound t v : pvalid t v -> kle (kind1 t) (kinfo_of v) = true.
+Proof.
+  intros V. destruct V; cbn [kind1 kinfo_of kle kinfo_eqb]; try reflexivity.
+  destruct l as [|s0 [|s1 l]]; try reflexivity. destruct H as [<-|[]]. cbn. apply String.eqb_refl.
+Qed.
+Lemma kind_sound nl t v : pvalid t v -> (v = JNull -> nl = true) -> kle (kind_of_ty nl t) (kinfo_of v) = true.
+Proof.
+  intros V N. destruct t; try (cbn [kind_of_ty]; destruct nl; [reflexivity | apply kind1_sound; exact V]).
+  cbn [kind_of_ty]. inversion V as [| | | | | | | | | | | | | |ms0 x j0 Ix Vx]; subst.
+  set (L := if nl then l else filter (fun x => negb (is_none x)) l).
+  assert (IL : In x L).
+  { unfold L. destruct nl; [exact Ix|]. apply filter_In. split; [exact Ix|]. destruct x; try reflexivity. inversion Vx; subst. specialize (N eq_refl). discriminate. }
+  destruct L as [|y r]; [contradiction|].
+  destruct (forallb (fun z => kinfo_eqb (kind1 z) (kind1 y)) r) eqn:F; [|reflexivity].
+  destruct IL as [<-|Ir]; [apply kind1_sound; exact Vx|].
+  rewrite forallb_forall in F. rewrite <- (kinfo_eqb_eq _ _ (F x Ir)). apply kind1_sound. exact Vx.
+Qed.
+Lemma in_keys_assoc {A} k (m : list (string * A)) : In k (keys m) -> exists v, assoc k m = Some v.
+Proof.
+  unfold keys, assoc. induction m as [|[a b] m IH]; [intros []|]. cbn [map find fst]. intros [E|I].
+  - cbn in E. subst a. rewrite String.eqb_refl. cbn. eauto.
+  - destruct (String.eqb a k); [cbn; eauto | exact (IH I)].
+Qed.
+Lemma assoc_map_key {B} (g : string -> B) k S : assoc k (map (fun k => (k, g k)) S) = if mem k S then Some (g k) else None.
+Proof.
+  unfold assoc, mem. induction S as [|x S IH]; [reflexivity|]. cbn [map find existsb fst]. rewrite (String.eqb_sym k x).
+  destruct (String.eqb x k) eqn:E; [apply String.eqb_eq in E; subst x; reflexivity | exact IH].
+Qed.
+Lemma map_fst_map_key {B} (g : string -> B) S : map fst (map (fun k => (k, g k)) S) = S.
+Proof. rewrite map_map. cbn. apply map_id. Qed.
 
 (* facts about one object that is valid at class c *)
 Definition ValidAt (c : string) (fs : list fld) (m : list (string * json)) : Prop :=
@@ -382,8 +572,44 @@ Proof.
       * (* no condition looks at the first element *)
         apply andb_true_iff in HN. destruct HN as [IF HN].
         assert (L : sleaf h (shape_of (JArr (x0 :: l0))) = sleaf h (ShArr (Some ShNull))) by (cbn [shape_of]; apply sleaf_idx_free; exact IF).
-        destruct (leaf_map_inv _ _ HN) as [t' [L0 HN']]. rewrite L0 in L. clear HN.
-        apply andb_true_iff in HN'. destruct HN' as [E O]. apply pty_eqb_eq in E. subst t'.
+        destruct (seq_leaf_cases _ _ _ _ HN) as [[t' [L0 HN']]|[[L0 HN']|[c' [L0 HN']]]]; rewrite L0 in L; clear HN.
+        2:{ (* strings mapped through str() *)
+            apply pty_eqb_eq in HN'. subst t.
+            assert (ST : forall x, In x (x0 :: l0) -> exists s, x = JStr s) by (intros x Ix; specialize (Hl x Ix); inversion Hl; eauto).
+            apply (RAW (VList (map (fun x => VStr (py_str_of py_str x)) (x0 :: l0)))).
+            - exists 0. rewrite (sleaf_sound _ h (JArr (x0 :: l0)) _ L). cbn [reval heval bind iter_json].
+              rewrite (mapM_all_ok _ (fun x => VStr (py_str_of py_str x))); [reflexivity | intros x _; reflexivity].
+            - constructor. intros y Iy. apply in_map_iff in Iy. destruct Iy as [x [<- Ix]]. constructor.
+            - cbn [Denote.den]. constructor. rewrite map_map. clear -ST. induction (x0 :: l0) as [|x l IH]; constructor.
+              + destruct (ST x (or_introl eq_refl)) as [s ->]. cbn. constructor.
+              + apply IH. intros y Iy. apply ST. right. exact Iy. }
+        2:{ (* primitive items stay, object items are structured as c' *)
+            destruct t as [| | | | | |ems| | | | | | | |]; try discriminate.
+            apply andb_true_iff in HN'. destruct HN' as [EM InG]. rewrite forallb_forall in EM.
+            assert (OK' : okty Sg GC GU (PyCls c') = true) by (unfold okty; cbn [flat_ty handled andb]; exact InG).
+            set (l := x0 :: l0) in *.
+            assert (CASE : forall x, In x l -> (is_prim x = true /\ has_type (PyUnion ems) (embed x)) \/ (is_prim x = false /\ In (PyCls c') ems /\ pvalid (PyCls c') x)).
+            { intros x Ix. specialize (Hl x Ix). inversion Hl as [| | | | | | | | | | | | | |ms0 y j0 Iy Vy]; subst. specialize (EM y Iy).
+              apply orb_true_iff in EM. destruct EM as [EM|EM].
+              - left. destruct y; try discriminate; inversion Vy; subst; (split; [reflexivity|]); (eapply t_union; [exact Iy | constructor]).
+              - right. apply pty_eqb_eq in EM. subst y. inversion Vy; subst. split; [reflexivity|]. split; [exact Iy | exact Vy]. }
+            destruct (good_list Sg py_str (flat_map (fun x => if is_prim x then [] else [(PyCls c', x)]) l)) as [n Hn].
+            { intros p Ip. apply in_flat_map in Ip. destruct Ip as [x [Ix Ip]]. destruct (CASE x Ix) as [[PR _]|[PR [_ Vx]]]; rewrite PR in Ip; [contradiction|].
+              destruct Ip as [<-|[]]. cbn [fst snd]. apply SUB; [apply jsize_in_arr; exact Ix | exact OK' | exact Vx]. }
+            destruct (mapM_build (fun x => reval py_str (structure n) (RIf (CIsPrim HItem) (RSelf HItem) (RStruct HItem (PyCls c'))) (JArr l) (Some x)) l
+                        (fun x y => has_type (PyUnion ems) y /\ NEq x (den y))) as [ys [M F]].
+            { intros x Ix. cbn [reval ceval heval bind]. destruct (CASE x Ix) as [[PR T]|[PR [Ic Vx]]]; rewrite PR; cbn [bind].
+              - exists (embed x). split; [reflexivity|]. split; [exact T | rewrite den_embed; apply NEq_refl].
+              - destruct (Hn (PyCls c', x)) as [o [S1 [T1 N1]]]; [apply in_flat_map; exists x; split; [exact Ix | rewrite PR; left; reflexivity]|].
+                exists o. split; [exact S1|]. split; [eapply t_union; [exact Ic | exact T1] | exact N1]. }
+            apply (RAW (VList ys)).
+            - exists n. rewrite (sleaf_sound _ h (JArr l) _ L). cbn [reval heval bind iter_json].
+              rewrite (mapM_ext _ (fun x => reval py_str (structure n) (RIf (CIsPrim HItem) (RSelf HItem) (RStruct HItem (PyCls c'))) (JArr l) (Some x)) l);
+                [rewrite M; reflexivity | intros x _; reflexivity].
+            - constructor. intros y Iy. destruct (Forall2_in_r _ _ _ _ F Iy) as [x [_ [T _]]]. exact T.
+            - cbn [Denote.den]. constructor. clear -F. induction F as [|x y l ys [T N] F IH]; constructor; assumption. }
+        rename HN' into HN.
+        apply andb_true_iff in HN. destruct HN as [E O]. apply pty_eqb_eq in E. subst t'.
         destruct (good_all Sg py_str t (x0 :: l0)) as [n [ys [M F]]].
         { intros x Ix. apply SUB; [apply jsize_in_arr; exact Ix | exact O | exact (Hl x Ix)]. }
         apply (RAW (VList ys)).
@@ -400,9 +626,14 @@ Proof.
         destruct (VA x0 (or_introl eq_refl)) as [m0 [E0 [ND0 VA0]]]. subst x0.
         set (P := hprobes h) in *. set (S0 := filter (fun k => mem k (keys m0)) P).
         specialize (HN S0 (in_subseqs_filter _ P)). pose proof (consistent_valid c fs m0 P VA0) as CO. fold S0 in CO. rewrite CO in HN. cbn [negb orb] in HN.
-        assert (LK : sleaf h (shape_of (JArr (JObj m0 :: l0))) = sleaf h (ShArr (Some (ShObj S0)))).
-        { cbn [shape_of]. apply (sleaf_ext h (keys m0) S0). intros k Ik. symmetry. apply memK_filter. exact Ik. }
-        destruct (leaf_map_inv _ (fun t' => match t' with PyCls c' => _ | _ => false end) HN) as [t' [LF HN']]. rewrite LF in LK. clear HN.
+        destruct (leaf_map_inv _ (fun t' => match t' with PyCls c' => _ | _ => false end) HN) as [t' [LF HN']]. clear HN.
+        assert (LK : sleaf h (shape_of (JArr (JObj m0 :: l0))) = Some (RMap HObj (RStruct HItem t'))).
+        { cbn [shape_of].
+          assert (RF : Refines P (rep_unk S0) (map (fun kv => (fst kv, kinfo_of (snd kv))) m0)); [split | exact (proj2 (sleaf_mono h _ _ RF) _ LF)].
+          - intros k Ik. unfold rep_unk. rewrite map_fst_map_key, map_fst_map_snd. apply memK_filter. exact Ik.
+          - intros k a As. unfold rep_unk in As. rewrite assoc_map_key in As. destruct (mem k S0) eqn:MS; [|discriminate]. inversion As; subst a.
+            apply memK_filter_sub in MS. apply mem_in in MS. destruct (in_keys_assoc k m0 MS) as [v Av].
+            exists (kinfo_of v). split; [rewrite assoc_map_snd, Av; reflexivity | reflexivity]. }
         destruct t' as [| | | | | | | | | | | |c'| |]; try discriminate.
         apply andb_true_iff in HN'. destruct HN' as [IN HC]. apply andb_true_iff in IN. destruct IN as [IN InG]. apply existsb_pty_in in IN.
         destruct (lookup_cls Sg c') as [fs'|] eqn:L'; [|discriminate].
@@ -415,6 +646,16 @@ Proof.
            rewrite (mapM_ext _ (structure n (PyCls c')) (JObj m0 :: l0)); [rewrite M; reflexivity | intros x _; reflexivity].
         -- apply (t_union Sg ms (PySeq (PyCls c')) (VList ys) IN). constructor. intros y Iy. destruct (Forall2_in_r _ _ _ _ F Iy) as [x [_ [T _]]]. exact T.
         -- cbn [Denote.den]. constructor. clear -F. induction F as [|x y l ys [T N] F IH]; constructor; assumption.
+  - (* PyTuple [PyInt; PyInt] *)
+    destruct l as [|t1 [|t2 [|t3 l]]]; try discriminate; destruct t1; try discriminate; destruct t2; try discriminate.
+    inversion Vt as [| | | | | | | | | | |ts l0 HF| | |]; subst.
+    inversion HF as [|? x1 ? l1 V1 HF1]; subst. inversion HF1 as [|? x2 ? l2 V2 HF2]; subst. inversion HF2; subst.
+    inversion V1; subst. inversion V2; subst.
+    unfold leaf_is in HM. destruct (sleaf h (ShArr (Some ShPrimNS))) as [r|] eqn:L; [|discriminate].
+    apply is_pair_leaf_eq in HM. subst r. apply (RAW (VTuple [VInt z; VInt z0])).
+    + exists 0. rewrite (sleaf_sound _ h (JArr [JInt z; JInt z0]) _ L). reflexivity.
+    + constructor. repeat constructor.
+    + cbn [Denote.den map]. repeat constructor.
   - (* PyLit *) inversion Vt; subst. unfold leaf_is in HM. destruct (sleaf h ShStr) as [r|] eqn:L; [|discriminate].
     apply (RAW (VStr s)); [exists 0; rewrite (sleaf_sound _ h (JStr s) r L); apply (self_or_str_result _ r s HM) | constructor; assumption | constructor].
   - (* PyEnum *) inversion Vt as [| | | | | | | | |e0 d j0 Le Pj [m [Fm Dm]]| | | | |]; subst e0 j0.
@@ -430,12 +671,23 @@ Proof.
     + rewrite den_embed. apply NEq_refl.
   - (* PyCls *) rename n into c. inversion Vt as [| | | | | | | | | | | | |c0 fs m L ND Hp Hr|]; subst c0 j.
     assert (VA : ValidAt c fs m) by (split; assumption).
-    unfold cls_member_ok in HM. rewrite L in HM. rewrite forallb_forall in HM.
+    unfold cls_member_ok in HM. rewrite L in HM. apply andb_true_iff in HM. destruct HM as [NDW HM]. apply nodupb_NoDup in NDW. rewrite forallb_forall in HM.
     set (P := hprobes h) in *. set (S0 := filter (fun k => mem k (keys m)) P).
     specialize (HM S0 (in_subseqs_filter _ P)). pose proof (consistent_valid c fs m P VA) as CO. fold S0 in CO. rewrite CO in HM. cbn [negb orb] in HM.
-    assert (LK : sleaf h (shape_of (JObj m)) = sleaf h (ShObj S0)).
-    { cbn [shape_of]. apply (sleaf_ext h (keys m) S0). intros k Ik. symmetry. apply memK_filter. exact Ik. }
-    destruct (sleaf h (ShObj S0)) as [r|] eqn:LF; [|discriminate].
+    destruct (sleaf h (ShObj (rep_obj NL c fs S0))) as [r|] eqn:LF; [|discriminate].
+    assert (LK : sleaf h (shape_of (JObj m)) = Some r).
+    { cbn [shape_of].
+      assert (RF : Refines P (rep_obj NL c fs S0) (map (fun kv => (fst kv, kinfo_of (snd kv))) m)); [split | exact (proj1 (sleaf_mono h _ _ RF) _ LF)].
+      - intros k Ik. unfold rep_obj. rewrite map_fst_map_key, map_fst_map_snd. apply memK_filter. exact Ik.
+      - intros k a As. unfold rep_obj in As. rewrite assoc_map_key in As. destruct (mem k S0) eqn:MS; [|discriminate]. inversion As; subst a.
+        apply memK_filter_sub in MS. apply mem_in in MS. destruct (in_keys_assoc k m MS) as [v Av].
+        exists (kinfo_of v). split; [rewrite assoc_map_snd, Av; reflexivity|].
+        destruct (Hp k v (assoc_in _ _ _ Av)) as [f [If [Ef [Pf [Jf Nf]]]]].
+        unfold finfo. rewrite (find_wire fs k f NDW If Ef).
+        assert (KS : kle (kind_of_ty (NL c k) (ftype f)) (kinfo_of v) = true) by (apply kind_sound; [exact Pf | exact Nf]).
+        destruct (fval f) as [| | | | | |l] eqn:FV; try exact KS. destruct l as [|s0 [|s1 l]]; try exact KS.
+        destruct (fvalopt f) eqn:FO; [exact KS|]. unfold jvalidate in Jf. rewrite FV, FO in Jf.
+        destruct v; try discriminate Jf. cbn in Jf. rewrite orb_false_r in Jf. cbn. rewrite String.eqb_sym. exact Jf. }
     destruct r; try discriminate. destruct e; try discriminate. destruct t; try discriminate. rename n into c'.
     apply andb_true_iff in HM. destruct HM as [IN HM]. apply andb_true_iff in IN. destruct IN as [IN InG]. apply existsb_pty_in in IN.
     destruct (lookup_cls Sg c') as [fs'|] eqn:L'; [|discriminate].
